@@ -1,0 +1,7 @@
+//go:build !verif
+
+package fstxn
+
+import "github.com/mit-pdos/go-journal/common"
+
+func verifHook(ev string, op *FsTxn, inum common.Inum) {}
